@@ -27,6 +27,7 @@ import (
 // Function part (real offsetDB.save / load / parse, real jobProvider.commit):
 //   c07.rt <now> T                     save the table, read the file, load it with a fresh offsetDB
 //   c07.parse <now> <content>          offsetDB.parse
+//   c07.csave <njobs> <m> <nsavers> <iters>  concurrent savers (commit; save) on one offsetDB + a loader
 //   c07.seq <nsrc> <nops> ops…         commits / truncations / saves in a sequential schedule
 //   c07.conc <nsrc> <m> <nf> <nsaves> <maxcommits>  one committing goroutine per source (jobs with
 //                                      m*(1+nf) streams) against the saver; per save: s <lo…> <hi…> <L>
@@ -48,6 +49,7 @@ func init() {
 	execs["c07.proto"] = execC07Proto
 	execs["c07.conc"] = execC07Conc
 	execs["c07.hist"] = execC07Hist
+	execs["c07.csave"] = execC07Csave
 	gens["C07"] = genC07
 }
 
@@ -335,6 +337,124 @@ func execC07Conc(t *hx.Toks) string {
 	}
 	stop.Store(true)
 	wg.Wait()
+	return strings.Join(out, " ")
+}
+
+// execC07Csave: c07.csave <njobs> <m> <nsavers> <iters> — CONCURRENT SAVES on one offsetDB, what
+// persistence_mode=sync does when commits arrive from several processors: saver goroutine g owns the
+// jobs j with j mod nsavers = g and repeats `commit to one of its jobs; save` (the two calls of
+// jobProvider.commit in sync mode). Jobs have m streams, commit k of a job carries offset k
+// (set-up k <= m creates stream k-1, then round-robin), so a job's table is a function of k
+// (`concTable m 0 k`). A loader goroutine keeps loading the offsets file and records every new
+// content: `s <lo_1…lo_n> <hi_1…hi_n> <L>` with lo_j = commits of job j whose save had returned
+// before the load started, hi_j = commits started when it ended. Because saves are serialised and
+// each formats the snapshot it took, every file names every job once, with lo_j <= k_j <= hi_j.
+func execC07Csave(t *hx.Toks) string {
+	defer quietLogs()()
+	njobs, m, nsavers, iters := t.Int(), t.Int(), t.Int(), t.Int()
+	if t.Err != nil || !t.Done() || njobs < 1 || njobs > 4096 || m < 1 || m > 64 || nsavers < 1 || nsavers > 64 {
+		return "bad-case"
+	}
+	dir := c07Dir()
+	defer os.RemoveAll(dir)
+	cur, tmp := filepath.Join(dir, "offsets"), filepath.Join(dir, "offsets.tmp")
+	var jobs []file.VerifC07Job
+	for i := 1; i <= njobs; i++ {
+		jobs = append(jobs, file.VerifC07Job{Filename: "f" + strconv.Itoa(i), Inode: uint64(i), SourceID: uint64(i)})
+	}
+	p := file.NewVerifC07Provider(cur, tmp, false, jobs)
+	names := make([]string, m)
+	for q := range names {
+		names[q] = c07ConcName(q, 0)
+	}
+	started := make([]atomic.Int64, njobs+1)
+	done := make([]atomic.Int64, njobs+1)
+	next := make([]int64, njobs+1) // owned by the job's saver
+	var seq atomic.Uint64
+	commit := func(j int) {
+		next[j]++
+		k := next[j]
+		pos := int(k - 1)
+		if k > int64(m) {
+			pos = int((k - int64(m) - 1) % int64(m))
+		}
+		started[j].Add(1)
+		p.Commit(uint64(j), names[pos], k, seq.Add(1))
+	}
+	for j := 1; j <= njobs; j++ { // set-up: every stream of every job exists, one save
+		for k := 1; k <= m; k++ {
+			commit(j)
+		}
+	}
+	p.Save()
+	for j := 1; j <= njobs; j++ {
+		done[j].Store(int64(m))
+	}
+	var stop atomic.Bool
+	var out []string
+	var lwg sync.WaitGroup
+	lwg.Add(1)
+	go func() { // the loader
+		defer lwg.Done()
+		var last []byte
+		for first := true; first || !stop.Load(); first = false {
+			rec := make([]string, 0, 2*njobs+2)
+			rec = append(rec, "s")
+			for j := 1; j <= njobs; j++ {
+				rec = append(rec, strconv.FormatInt(done[j].Load(), 10))
+			}
+			content, err := os.ReadFile(cur)
+			if err != nil || string(content) == string(last) {
+				runtime.Gosched()
+				continue
+			}
+			last = content
+			// the bytes just read are what is judged: parse them with the real parser
+			var res string
+			withNow(0, func() {
+				res = c07SafeLoad(func() ([]file.VerifC07Job, error) { return file.VerifC07Parse(string(content)) })
+			})
+			for j := 1; j <= njobs; j++ {
+				rec = append(rec, strconv.FormatInt(started[j].Load(), 10))
+			}
+			out = append(out, strings.Join(rec, " ")+" "+res)
+		}
+	}()
+	var wg sync.WaitGroup
+	for g := 0; g < nsavers; g++ {
+		wg.Add(1)
+		go func(g int) {
+			defer wg.Done()
+			var own []int
+			for j := 1; j <= njobs; j++ {
+				if j%nsavers == g {
+					own = append(own, j)
+				}
+			}
+			for it := 0; it < iters && len(own) > 0; it++ {
+				j := own[it%len(own)]
+				commit(j)
+				p.Save()
+				done[j].Add(1)
+			}
+		}(g)
+	}
+	wg.Wait()
+	stop.Store(true)
+	lwg.Wait()
+	// the final file, after everything returned
+	rec := []string{"s"}
+	for j := 1; j <= njobs; j++ {
+		rec = append(rec, strconv.FormatInt(done[j].Load(), 10))
+	}
+	for j := 1; j <= njobs; j++ {
+		rec = append(rec, strconv.FormatInt(started[j].Load(), 10))
+	}
+	var res string
+	withNow(0, func() {
+		res = c07SafeLoad(func() ([]file.VerifC07Job, error) { return file.VerifC07Load(cur) })
+	})
+	out = append(out, strings.Join(rec, " ")+" "+res)
 	return strings.Join(out, " ")
 }
 
@@ -1199,6 +1319,17 @@ func genC07(w *bufio.Writer, rng *hx.Rng, tier string) {
 	for i := 0; i < nwide; i++ {
 		m := rng.Range(2, 4)
 		fmt.Fprintf(w, "c07.conc %d %d %d %d %d\n", rng.Range(1, 2), m, rng.Range(1500, 2500)/m, rng.Range(4, 8), 400000)
+	}
+
+	// ---- concurrent saves on one offsetDB (sync persistence with several committing processors) ---
+	fmt.Fprintf(w, "c07.csave 64 1 4 50\n")
+	fmt.Fprintf(w, "c07.csave 128 2 8 30\n")
+	fmt.Fprintf(w, "c07.csave 256 1 8 40\n")
+	fmt.Fprintf(w, "c07.csave %d %d %d %d\n", rng.Range(48, 160), rng.Range(1, 3), rng.Range(3, 8), rng.Range(30, 60))
+	if thorough {
+		for i := 0; i < 40; i++ {
+			fmt.Fprintf(w, "c07.csave %d %d %d %d\n", rng.Range(2, 512), rng.Range(1, 4), rng.Range(2, 12), rng.Range(10, 80))
+		}
 	}
 
 	// ---- commits / truncations / saves, sequential schedules --------------------------------
